@@ -1077,6 +1077,8 @@ func mkSampler(st Step) zerolog.Sampler {
 		return &zerolog.BasicSampler{N: 0}
 	case "basic":
 		return &zerolog.BasicSampler{N: st.N}
+	case "nil":
+		return nil // Sample(nil): the child has no sampler, whatever the parent had
 	}
 	panic("lp: unknown sampler " + st.Sampler)
 }
